@@ -106,9 +106,9 @@ impl IndexRead {
         if entries.is_empty() {
             // It's legal, it's just weird - and it can be produced by some old Conserve versions.
         }
-        // A damaged hunk can still decode but hold a path that is not a valid apath, or a time
-        // that cannot be represented: report it as corrupt here, rather than panicking when the
-        // path or the time is used.
+        // A damaged hunk can still decode but hold a path that is not a valid apath, a time
+        // that cannot be represented, or a symlink that lost its target: report it as corrupt
+        // here, rather than panicking when the path, the time or the target is used.
         if let Some(bad) = entries.iter().find(|entry| !Apath::is_valid(&entry.apath)) {
             return Err(Error::InvalidMetadata {
                 details: format!("Index hunk {path} has an invalid apath {:?}", bad.apath),
@@ -118,6 +118,17 @@ impl IndexRead {
             return Err(Error::InvalidMetadata {
                 details: format!(
                     "Index hunk {path} has an unrepresentable mtime on {:?}",
+                    bad.apath
+                ),
+            });
+        }
+        if let Some(bad) = entries
+            .iter()
+            .find(|entry| entry.kind == Kind::Symlink && entry.target.is_none())
+        {
+            return Err(Error::InvalidMetadata {
+                details: format!(
+                    "Index hunk {path} has a symlink without a target: {:?}",
                     bad.apath
                 ),
             });
